@@ -8,4 +8,14 @@ TWShapeKinds == {}
 FreeDepth == 1
 FreeKeys == {}
 FreeSlots == {}
+GMDepth == 4
+GMWide == 1
+GMMaxFld == 2
+GMMaxArr == 2
+GMTail == 2
+GMShallow == 2
+GMSeeds == {}
+GMSlots == {}
+GMFields == {"uf1"}
+GMKinds == {"plain", "email", "num", "bool", "dollar", "date", "oid", "b64", "nsname", "null", "empty"}
 ====
